@@ -23,6 +23,9 @@ import (
 )
 
 const (
+	// chainLength: long enough for maxHeightPrecommitted >= 100 (singleCommitValidator discards
+	// every commit on shorter chains because of an unsigned subtraction, see the report)
+	chainLength = 135
 	nValidators = 10
 	hostilePeer = p2p.PeerID("12D3KooWHostilePeerOfC09")
 )
@@ -56,7 +59,7 @@ func getWorld(k *mon.Case) *world {
 		k.Inconclusive("node-init:" + err.Error())
 		return nil
 	}
-	blocks, err := n.Grow(4*nValidators + 5)
+	blocks, err := n.Grow(chainLength)
 	if err != nil {
 		k.Inconclusive("node-grow:" + err.Error())
 		return nil
@@ -73,6 +76,16 @@ func getWorld(k *mon.Case) *world {
 	}
 	theWorld = w
 	return w
+}
+
+// certHeight draws a height whose single / aggregate commits are in scope: above the certified
+// height, not above the precommitted height, within the last 100 precommitted heights.
+func (w *world) certHeight(r *rand.Rand) uint32 {
+	lo := w.certified
+	if w.precommit > certificate.CommitRangeStored && w.precommit-certificate.CommitRangeStored > lo {
+		lo = w.precommit - certificate.CommitRangeStored
+	}
+	return lo + 1 + uint32(r.Intn(int(w.precommit-lo)))
 }
 
 // restore brings the node back to the tip it had when the world was built.
@@ -197,7 +210,7 @@ func chainStreams(c *mon.Ctx, h *hostile.Harness) {
 	ctx := context.Background()
 
 	// ---------------------------------------------------------------- blocks
-	c.Cases("block", c.N(160, 6000), func(k *mon.Case) {
+	c.Cases("block", c.N(96, 6000), func(k *mon.Case) {
 		w := getWorld(k)
 		if w == nil {
 			return
@@ -217,7 +230,7 @@ func chainStreams(c *mon.Ctx, h *hostile.Harness) {
 			}
 		case 1: // aggregate commit present
 			kind = "with-aggregate-commit"
-			o.AggregateCommit = w.aggregate(w.certified+1+uint32(r.Intn(int(w.precommit-w.certified))), 0x3ff)
+			o.AggregateCommit = w.aggregate(w.certHeight(r), 0x3ff)
 		case 2:
 			kind = "empty"
 			o = node.BlockOpts{}
@@ -272,7 +285,7 @@ func chainStreams(c *mon.Ctx, h *hostile.Harness) {
 	})
 
 	// ---------------------------------------------------------------- transactions (gossip)
-	c.Cases("tx-gossip", c.N(120, 5000), func(k *mon.Case) {
+	c.Cases("tx-gossip", c.N(64, 5000), func(k *mon.Case) {
 		w := getWorld(k)
 		if w == nil {
 			return
@@ -325,7 +338,7 @@ func chainStreams(c *mon.Ctx, h *hostile.Harness) {
 	})
 
 	// ---------------------------------------------------------------- single commits
-	c.Cases("single-commits", c.N(120, 5000), func(k *mon.Case) {
+	c.Cases("single-commits", c.N(64, 5000), func(k *mon.Case) {
 		w := getWorld(k)
 		if w == nil {
 			return
@@ -348,7 +361,7 @@ func chainStreams(c *mon.Ctx, h *hostile.Harness) {
 			case 1:
 				return w.tipHeight
 			default:
-				return w.certified + 1 + uint32(r.Intn(int(w.precommit-w.certified)))
+				return w.certHeight(r)
 			}
 		}
 		var cs []*certificate.SingleCommit
@@ -374,7 +387,7 @@ func chainStreams(c *mon.Ctx, h *hostile.Harness) {
 		clear()
 		drive(k, h, r, base, targets, defaultOpts)
 		// component level: one commit with a hostile part
-		hh := w.certified + 1 + uint32(r.Intn(int(w.precommit-w.certified)))
+		hh := w.certHeight(r)
 		hdr := w.chain[hh].Header
 		v := w.vals[r.Intn(len(w.vals))]
 		good := crypto.BLSSign(certMessage(chainID, hdr), v.BLS.PrivateKey)
@@ -406,13 +419,13 @@ func chainStreams(c *mon.Ctx, h *hostile.Harness) {
 	})
 
 	// ---------------------------------------------------------------- aggregate commits
-	c.Cases("aggregate-commit", c.N(240, 12000), func(k *mon.Case) {
+	c.Cases("aggregate-commit", c.N(128, 12000), func(k *mon.Case) {
 		w := getWorld(k)
 		if w == nil {
 			return
 		}
 		r := k.R
-		hh := w.certified + 1 + uint32(r.Intn(int(w.precommit-w.certified)))
+		hh := w.certHeight(r)
 		mask := 0
 		for popcount(mask) < 7 {
 			mask |= 1 << uint(r.Intn(nValidators))
@@ -514,7 +527,7 @@ func chainStreams(c *mon.Ctx, h *hostile.Harness) {
 	})
 
 	// ---------------------------------------------------------------- RPC envelopes and handlers
-	c.Cases("rpc", c.N(160, 6000), func(k *mon.Case) {
+	c.Cases("rpc", c.N(96, 6000), func(k *mon.Case) {
 		w := getWorld(k)
 		if w == nil {
 			return
@@ -611,7 +624,7 @@ func chainStreams(c *mon.Ctx, h *hostile.Harness) {
 	})
 
 	// ---------------------------------------------------------------- sync client side (decoding)
-	c.Cases("sync-client-decode", c.N(96, 4000), func(k *mon.Case) {
+	c.Cases("sync-client-decode", c.N(48, 4000), func(k *mon.Case) {
 		w := getWorld(k)
 		if w == nil {
 			return
